@@ -7,7 +7,7 @@ import os
 import re
 
 import fam_history
-from vlib import SPEC, ToolError, icverif, log, tlc, tlc_stats
+from vlib import SPEC, ToolError, icverif, log, tla_tuple_lines, tlc, tlc_stats, validate_trace
 
 
 def run_tlc(module, cfg_text, d, name, workers=8, timeout=1700):
@@ -81,6 +81,142 @@ class Calendar:
                 "exhaustive": True, "spec_invariants": ["ClosedEqualsIncremental", "WeekdayOK", "DateOK", "FirstDay", "LastDay"]}
 
 
+def cases_from(out, path, tag="CASE"):
+    n = 0
+    pref = '<<"' + tag + '", "'
+    with open(path, "w") as f:
+        for line in out.splitlines():
+            if line.startswith(pref):
+                f.write(json.loads(line.strip()[len(pref) - 1:-2]) + "\n")
+                n += 1
+    return n
+
+
+class Grid:
+    PROPS = ["C22"]
+    ASSUMPTIONS = ["R1C1 spelling is not fixed by the property (R[0]C[0] and RC are both fine): printed text must parse back to the same reference",
+                   "sheet names the engine refuses (rename_sheet_by_index returns Err) are outside 'every valid sheet name' and are skipped and counted",
+                   "a sheet name is read back correctly iff a formula =<quoted name>!B2+1 typed on another sheet, and the text the engine displays for it, both evaluate against that sheet"]
+
+    @staticmethod
+    def run(d, tier, seed):
+        res = {"violations": {"C22": [], "PANIC": []}}
+        cfg = open(os.path.join(SPEC, "Grid.cfg")).read().replace("NameLen = 2", "NameLen = %d" % (2 if tier == "quick" else 3))
+        out, st, dt = run_tlc("Grid.tla", cfg, d, "grid", workers=8)
+        path = os.path.join(d, "cases.ndjson")
+        n = cases_from(out, path)
+        rr, dt2 = icverif(["grid", "--in", path, "--out", os.path.join(d, "out")], timeout=3000)
+        res["tlc"] = {"states": st["distinct"], "transitions": st["generated"], "seconds": round(dt, 1), "cases_printed": n}
+        res["run"] = rr
+        collect(res, "C22", os.path.join(d, "out", "mismatches.ndjson"))
+        return res
+
+    @staticmethod
+    def evidence_for(prop, res):
+        r = res["run"]
+        return {"states": res["tlc"]["states"], "transitions": res["tlc"]["transitions"], "traces_validated_against_impl": r["cases"],
+                "samples": r["samples"], "evaluations": r["checks"], "distinct_nontrivial": r["distinct_nontrivial"],
+                "rule": "cases = all 16384 columns, references over boundary rows/columns x 4 absolute/relative combinations x 3 host cells, all sheet names up to the stated length over a 15-character tricky alphabet plus a fixed list; "
+                        "distinct_nontrivial = distinct case classes (column-name length, reference flag/direction class, quoted/bare name).",
+                "exhaustive": True, "invalid_names_skipped": r.get("invalid_names_skipped", 0),
+                "spec_invariants": ["ColBijective", "QuoteInverse"]}
+
+
+class Lang:
+    PROPS = ["C23"]
+    ASSUMPTIONS = ["the name tables are data of the implementation: the harness records Function::into_iter() x to_localized_name / to_xlsx_string and Error x to_localized_error_string / Display, "
+                   "with the result of parsing each name back (Parser::parse of NAME(), get_error_by_name, get_error_by_english_name)",
+                   "LAMBDA is probed with a parameter list and a body (its own node kind)"]
+
+    @staticmethod
+    def run(d, tier, seed):
+        res = {"violations": {"C23": []}}
+        summ, dt = icverif(["langdump", "--out", d])
+        ok, out, dtv = validate_trace("Lang.tla", os.path.join(SPEC, "Lang.cfg"), os.path.join(d, "lang.ndjson"), os.path.join(d, "meta"))
+        if not ok:
+            raise ToolError("Lang.tla did not consume the whole table:\n" + out[-3000:])
+        st = tlc_stats(out)
+        res["tlc"] = {"states": st["distinct"], "transitions": st["generated"], "seconds": round(dtv, 1)}
+        res["summary"] = summ
+        recs = [json.loads(x) for x in open(os.path.join(d, "lang.ndjson"))]
+        res["samples"] = [recs[0], recs[-1]]
+        for v in tla_tuple_lines(out, "VIOL"):
+            _, l, prop, why, name, detail = v[:6]
+            items = []
+            if why == "function-name-collision":
+                for a, b, lang in json.loads(name):
+                    items.append((f"C23|{why}|{a}/{b}/{lang}", f"functions {a} and {b} have the same name in language {lang}", {"functions": [a, b], "language": lang}))
+            else:
+                items.append((f"C23|{why}|{name}", f"{why}: {name} -> {detail}", recs[l - 1] if l >= 1 else {}))
+            for sig, what, case in items:
+                res["violations"]["C23"].append({"signature": sig, "what": what, "count": 1,
+                                                 "payload": {"property": "C23", "signature": sig, "what": what, "case": case}})
+        return res
+
+    @staticmethod
+    def evidence_for(prop, res):
+        s = res["summary"]
+        return {"states": res["tlc"]["states"], "transitions": res["tlc"]["transitions"], "traces_validated_against_impl": 1,
+                "samples": res["samples"], "evaluations": s["functions"] * (s["languages"] + 1) + s["errors"] * (2 * s["languages"] + 1),
+                "distinct_nontrivial": s["functions"] + s["errors"],
+                "rule": "one record per built-in function (495) and per error kind (12): names in 5 languages + xlsx form and the result of parsing each back; "
+                        "RoundTrip evaluated per record, injectivity over all pairs; distinct_nontrivial = number of records.",
+                "exhaustive": True}
+
+
+def simple_family(props, module, cfg_name, tier_subst, harness_cmd, assumptions, rule, invariants, exhaustive=True, level_workers=8, extra_args=None):
+    """A family whose whole S->I direction is: TLC prints CASE lines, `icverif <cmd>` executes them."""
+    class Fam:
+        PROPS = props
+        ASSUMPTIONS = assumptions
+
+        @staticmethod
+        def run(d, tier, seed):
+            res = {"violations": {p: [] for p in props + ["PANIC"]}}
+            cfg = open(os.path.join(SPEC, cfg_name)).read()
+            for a, b in tier_subst.get(tier, []):
+                assert a in cfg, (a, cfg_name)
+                cfg = cfg.replace(a, b)
+            out, st, dt = run_tlc(module, cfg, d, "cases", workers=level_workers)
+            path = os.path.join(d, "cases.ndjson")
+            n = cases_from(out, path)
+            if n == 0:
+                raise ToolError(f"{module} printed no cases")
+            args = [harness_cmd, "--in", path, "--out", os.path.join(d, "out"), "--seed", seed]
+            if tier == "thorough":
+                args.append("--thorough")
+            if extra_args:
+                args += extra_args
+            rr, dt2 = icverif(args, timeout=3400)
+            os.remove(path)
+            res["tlc"] = {"states": st["distinct"], "transitions": st["generated"], "seconds": round(dt, 1), "cases_printed": n}
+            res["run"] = rr
+            res["run"]["seconds"] = round(dt2, 1)
+            collect(res, props[0], os.path.join(d, "out", "mismatches.ndjson"))
+            return res
+
+        @staticmethod
+        def evidence_for(prop, res):
+            r = res["run"]
+            ev = {"states": res["tlc"]["states"], "transitions": res["tlc"]["transitions"], "traces_validated_against_impl": r["cases"],
+                  "samples": r["samples"][:3] or [{"note": "no sample"}], "evaluations": r["checks"], "distinct_nontrivial": r["distinct_nontrivial"],
+                  "rule": rule, "exhaustive": exhaustive, "spec_invariants": invariants, "no_verdict": r.get("no_verdict", 0)}
+            for k, v in r.items():
+                if k not in ("cases", "checks", "samples", "distinct_nontrivial", "mismatches", "no_verdict", "seconds"):
+                    ev[k] = v
+            return ev
+    return Fam
+
+
+F4 = simple_family(
+    ["C34"], "F4.tla", "F4.cfg", {"thorough": [("AllSelections = FALSE", "AllSelections = TRUE")]}, "f4",
+    ["which references a selection touches: a reference is touched when the selection overlaps or grazes its text; whitespace directly before a reference may or may not count (both results are accepted)",
+     "the cursor positions returned are only required to lie inside the new text; period four is checked with the returned cursor when exactly one reference is touched and with a whole-formula selection",
+     "formulas: 1-2 reference tokens from a 13-token pool (single cells in the four $ states, lower case, ranges, column-only and row-only ranges, sheet-qualified and quoted-sheet references) joined by +, comma, space, SUM( )"],
+    "every formula of the pool with every cursor position (quick: collapsed cursors and selections reaching the end; thorough: every selection a<=b, both orders); distinct_nontrivial = distinct formulas on which period four was checked with the engine's own cursor.",
+    ["Period4", "OnlyDollars"])
+
+
 def replay_case(prop, path):
     with open(path) as f:
         payload = json.load(f)
@@ -99,4 +235,4 @@ def _wrap(cls, name):
     return (name, M)
 
 
-TABLE = {"C21": _wrap(Calendar, "calendar")}
+TABLE = {"C21": _wrap(Calendar, "calendar"), "C22": _wrap(Grid, "grid"), "C23": _wrap(Lang, "lang"), "C34": _wrap(F4, "f4")}
